@@ -33,7 +33,7 @@ that are words at this word size, sizes) and the interpreter ends within its fue
 
 Stand-alone:  python tools/corr_lowerstmt.py --tier quick --seed 0
 """
-import argparse, collections, json, os, random, shutil, subprocess, sys, time
+import argparse, collections, json, os, random, re, shutil, subprocess, sys, time
 sys.path.insert(0, os.path.dirname(os.path.abspath(__file__)))
 from common import REPO, VERIF, CannotTranslate, write_if_changed
 
@@ -68,7 +68,7 @@ CHARS = [chr(c) for c in range(32, 127) if chr(c) not in "'\\"] + ['\\n', "\\'",
 # A ::= ('v', name) | ('n', z) | ('ar', op, A, A) | ('un', 'neg'|'pos', A)
 # E ::= ('lit', bool) | ('bv', name) | ('cmp', op, A, A) | ('not', E) | ('and', E, E) | ('or', E, E)
 def has_var(a):
-    return a[0] == 'v' or any(has_var(x) for x in a[1:] if isinstance(x, tuple))
+    return a[0] in ('v', 'bi', 'lo') or any(has_var(x) for x in a[1:] if isinstance(x, tuple))
 
 
 class Gen:
@@ -76,6 +76,7 @@ class Gen:
         self.globs = list(globs)        # int globals: read and assigned like variables; may be shadowed once
         self.bglobs = list(bglobs)      # bool globals, likewise
         self.shadowed = set()
+        self.bools_now = []             # the bool locals in scope where an operand is being generated
         self.rng = rng
         self.maxdepth = maxdepth
         self.n = 0
@@ -112,6 +113,11 @@ class Gen:
 
     def opd(self, ints, depth=2):
         r = self.rng.random()
+        if self.bools_now and r < 0.12:                     # a bool local read as an int: (q is byte) is int
+            return ('bi', self.rng.choice(self.bools_now))
+        locs = [v for v in ints if v not in self.globs]
+        if locs and self.rng.random() < 0.06:               # the low byte of an int local: (x is byte) is int
+            return ('lo', self.rng.choice(locs))
         if depth > 0 and r < 0.2:
             return ('ar', self.rng.choice(list(AOPS)), self.opd(ints, depth - 1), self.opd(ints, depth - 1))
         if depth > 0 and r < 0.26:
@@ -121,6 +127,7 @@ class Gen:
         return ('n', self.rng.choice(GRID))
 
     def bexp(self, ints, bools, depth):
+        self.bools_now = [b for b in bools if b not in self.bglobs]
         r = self.rng.random()
         if depth <= 0 or r < 0.4:
             r2 = self.rng.random()
@@ -135,6 +142,7 @@ class Gen:
 
     def simple(self, ints, bools, allow_decl=True):
         """one statement without control flow -> (stmt, ints', bools')"""
+        self.bools_now = [b for b in bools if b not in self.bglobs]
         if not ints:                                         # a function without parameters: start with a local
             if not allow_decl:
                 return ('writeln',), ints, bools
@@ -183,6 +191,7 @@ class Gen:
         out = []
         ints, bools = list(ints), list(bools)
         for _ in range(self.rng.randint(0, maxlen)):
+            self.bools_now = [b for b in bools if b not in self.bglobs]
             r = self.rng.random()
             if depth > 0 and r < 0.16:
                 els = None
@@ -218,6 +227,7 @@ class Gen:
 
     def body(self, params, maxlen=7):
         ss = self.block(list(params) + self.globs, list(self.bglobs), self.maxdepth, False, maxlen)
+        self.bools_now = []
         if self.ret == 'int' and not (ss and ss[-1][0] == 'return'):
             ss.append(('return', self.opd(list(params), 1)))
         return ss
@@ -244,6 +254,8 @@ def opd_src(a):
         return a[1]
     if a[0] == 'n':
         return str(a[1]) if a[1] >= 0 else '(%d)' % a[1]
+    if a[0] in ('bi', 'lo'):
+        return '((%s is byte) is int)' % a[1]
     if a[0] == 'un':
         return '(%s%s)' % ('-' if a[1] == 'neg' else '+', opd_src(a[2]))
     return '(%s %s %s)' % (opd_src(a[2]), AOPS[a[1]], opd_src(a[3]))
@@ -442,6 +454,16 @@ def convert_func(func, mods):
             if k != 'i':
                 raise Outside('non-int variable in int expression')
             return '(i %d)' % i
+        if T is A.ByteToInt and type(o.expr) is A.BoolToByte and type(o.expr.expr) is A.VariableLookup:
+            k, j = var(str(o.expr.expr.var.name))            # (q is byte) is int, q a bool local
+            if k != 'b':
+                raise Outside('byte read of a non-local')
+            return '(byte %d)' % j
+        if T is A.ByteToInt and type(o.expr) is A.IntToByte and type(o.expr.expr) is A.VariableLookup:
+            k, i = var(str(o.expr.expr.var.name))            # (x is byte) is int, x an int local
+            if k != 'i':
+                raise Outside('low byte of a non-local')
+            return '(low %d)' % i
         if T in ar_names:
             return '(ar %s %s %s)' % (ar_names[T], opd(o.left), opd(o.right))
         if T in (O.Neg, O.Pos):
@@ -939,7 +961,7 @@ def run(tier, seed, workdir):
         progs.append(gen_program(rng, rng.choice([1, 2, 2, 3] if quick else [1, 2, 3, 3, 4])))
 
     dist = {'statements': collections.Counter(), 'nesting': collections.Counter(), 'word': collections.Counter(),
-            'globals': collections.Counter(),
+            'globals': collections.Counter(), 'byte_reads': collections.Counter(),
             'status': collections.Counter(), 'lines_per_program': collections.Counter(), 'functions': collections.Counter()}
     jobs, failed = [], []
     for k, ss in enumerate(progs):
@@ -962,6 +984,15 @@ def run(tier, seed, workdir):
                                      ('negated_int_global_operand', '(un neg (glob ')):
                         if pat in r[3]:
                             dist['globals'][key] += 1
+                    for key, pat in (('low_byte_of_int_local', r'\(low '), ('byte_sized_local_as_int', r'\(byte \d'),
+                                     ('as_declaration_initialiser', r'\(decli \((low|byte) \d'),
+                                     ('as_call_or_write_argument', r'\((writei \d|call \w+ [\d ]*\d) \((low|byte) \d'),
+                                     ('under_write_is_byte', r'\(write \(byte \((low|byte) \d'),
+                                     ('as_comparison_operand', r'\(cmp \w+ \((low|byte) \d'),
+                                     ('as_arithmetic_operand', r'\(ar \w+ (\((i|n|glob) -?\d+\) )?\((low|byte) \d'),
+                                     ('assigned_to_global', r'\(assg \d+ \((low|byte) \d')):
+                        if re.search(pat, r[3]):
+                            dist['byte_reads'][key] += 1
                 dist['lines_per_program'][min(len(r[1]) // 50 * 50, 500)] += 1
             else:
                 # every generated program is in F_stmt and well typed by construction: a rejection or a
